@@ -134,6 +134,10 @@ impl Scenario for Codec {
         "(data, codec, path, chunk schedule, stream policy): data empty / 1 byte / runs / text / incompressible / all byte values up to 64 KiB (quick) or 8 MiB (thorough); paths one-shot, sync streaming writer (caller's writes split by a chunk schedule over a short-writing disk, flush, drop), sync streaming reader (varying buffer sizes over a short-reading disk), async writer (Pending, close) and async reader; outputs decoded by the upstream libraries called directly and, for a gzip sample, by CPython zlib; 'unknown' must be refused by all six entry points; distinct = distinct serialized cases; non-trivial = data non-empty".into()
     }
     fn generate(&self, rng: &mut Rng, tier: Tier, run: u64) -> Value {
+        if run == 0 {
+            // exactly one input above 16 MiB per batch, through the one-shot helpers
+            return to_value(&CodecCase { data: DataSpec { kind: 3, seed: 77, len: (17 << 20) + 1 }, ic: *rng.pick(&[1u8, 2, 4]), path: 0, chunks: Xfer::Full, pol: Policy::plain(), upstream_input: false, pycheck: false, mid_flush: 0, poison: 0 });
+        }
         let mut kind = match rng.below(15) {
             0 => 0,
             1 => 1,
